@@ -248,6 +248,7 @@ def xparseModel (line : String) : String :=
       -- the theorems of PCV.Props.C28 are stated for XParse.goLevels: a renumbering must be seen
       else if L != goLevels then s!"report.Level constants changed: {k} (model and theorems assume 1,2,3,4)"
       else if lv == "panic" then "panic"
+      else if lv == "hang" then "hang"
       else match parseLevels lv with
         | some ls =>
           let r := lex (mkEnv bs tbl)
@@ -262,6 +263,7 @@ def xparseSpec (line ans : String) : String :=
   match words line with
   | ["parse", h, ct, k, lv, bad] =>
     if ans.startsWith "panic" then "fails panic-escaped-Parse"
+    else if lv == "hang" || ans.startsWith "hang" then "fails hang (lexer/parser did not finish within the watchdog period)"
     else
       match parseConsts k, parseLevels lv, bad.toNat?, words ans with
       | some L, some ls, some nb, [o, li, ob] =>
